@@ -17,9 +17,10 @@ cSP == 32  cDASH == 45  cTILDE == 126  cBAR == 124  cCOLON == 58  cBANG == 33
 cPLUS == 43  cDOT == 46  cAPOS == 39  cCOMMA == 44  cBQUOTE == 96  cUNDER == 95  cEQ == 61
 cSLASH == 47  cBSLASH == 92  cLPAR == 40  cRPAR == 41
 cGT == 62  cLT == 60  cCARET == 94  cv == 118  cV == 86  cSTAR == 42  co == 111  cO == 79  cX == 88  cHASH == 35
+cQUOTE9 == 8217     \* the typographic apostrophe: a reduced copy of the apostrophe's rules
 
 Modelled == {cSP, cDASH, cTILDE, cBAR, cCOLON, cBANG, cPLUS, cDOT, cAPOS, cCOMMA, cBQUOTE, cUNDER, cEQ,
-             cSLASH, cBSLASH, cLPAR, cRPAR, cGT, cLT, cCARET, cv, cV, cSTAR, co, cO, cX, cHASH} \cup UnicodeChars
+             cSLASH, cBSLASH, cLPAR, cRPAR, cGT, cLT, cCARET, cv, cV, cSTAR, co, cO, cX, cHASH, cQUOTE9} \cup UnicodeChars
 
 G(gx, gy) == <<gx * 2, gy * 4>>
 pa == G(0,0) pb == G(1,0) pc == G(2,0) pd == G(3,0) pe == G(4,0)
@@ -59,7 +60,7 @@ Sig(ch) ==
                          <<WEAK, <<Line(pa, py), Line(pu, pe)>> >> >>
     [] ch = cDOT   -> << <<MEDIUM, <<Line(pm, pw)>> >>, <<WEAK, <<Line(pm, pk)>> >>,
                          <<WEAK, <<Line(pm, po)>> >> >>
-    [] ch = cAPOS  -> << <<MEDIUM, <<Line(pc, ph)>> >>, <<WEAK, <<Line(pm, pk)>> >>,
+    [] ch \in {cAPOS, cQUOTE9} -> << <<MEDIUM, <<Line(pc, ph)>> >>, <<WEAK, <<Line(pm, pk)>> >>,
                          <<WEAK, <<Line(pm, po)>> >> >>
     [] ch = cCOMMA -> << <<MEDIUM, <<Line(pm, pr)>> >>, <<WEAK, <<Line(pm, pk)>> >>,
                          <<WEAK, <<Line(pm, po)>> >> >>
@@ -159,6 +160,19 @@ Rules(ch, N) ==
                          <<Med(N.r, pk, pl) /\ Med(N.tl, pr, pw), <<Arc(Off(pw, -1, -1), pm, U4), Line(pm, po)>> >>,
                          <<Med(N.l, pn, po) /\ Med(N.t, pr, pw), <<Arc(pk, ph, U2), Line(pc, ph)>> >>,
                          <<Med(N.l, pn, po) /\ Med(N.tr, pr, pw), <<Arc(pm, Off(pw, 1, -1), U4), Line(pk, pm)>> >>,
+                         <<Med(N.l, pk, po) /\ Med(N.tr, pu, py), <<Line(pk, pe)>> >>,
+                         <<Med(N.tl, pu, py) /\ Med(N.r, pk, po), <<Line(pa, po)>> >>,
+                         <<N.l = cDOT /\ N.tr = cDOT, <<Broken(Off(pm, -1, 0), Off(pm, 1, -1))>> >>,
+                         <<N.r = cDOT /\ N.tl = cDOT, <<Broken(Off(pm, -1, -1), Off(pm, 1, 0))>> >> >>
+    [] ch = cQUOTE9 -> << <<Med(N.r, pk, pl) /\ Med(N.t, pr, pw), <<Arc(ph, po, U2), Line(pc, ph)>> >>,
+                         <<Med(N.l, pn, po) /\ Med(N.t, pr, pw), <<Arc(pk, ph, U2), Line(pc, ph)>> >>,
+                         <<Med(N.tl, ps, py) /\ Med(N.r, pk, pl), <<Line(pa, pg), Arc(pg, po, U4)>> >>,
+                         <<Med(N.tr, pu, pq) /\ Med(N.r, pk, pl), <<Line(pe, pi), Arc(pi, po, B12)>> >>,
+                         <<Med(N.tr, pu, pq) /\ Med(N.l, pn, po), <<Arc(pk, pi, U4), Line(pi, pe)>> >>,
+                         <<Med(N.tl, ps, py) /\ Med(N.l, pn, po), <<Arc(pk, pg, B12), Line(pg, pa)>> >>,
+                         <<Med(N.tl, ps, py) /\ Med(N.tr, pu, pq), <<Line(pa, pm), Line(pm, pe)>> >>,
+                         <<ArcsTo(N.tl, pe, py), <<Line(pa, pg), Arc(pg, po, U4)>> >>,
+                         <<ArcsTo(N.tr, pu, pa), <<Arc(pk, pi, U4), Line(pi, pe)>> >>,
                          <<Med(N.l, pk, po) /\ Med(N.tr, pu, py), <<Line(pk, pe)>> >>,
                          <<Med(N.tl, pu, py) /\ Med(N.r, pk, po), <<Line(pa, po)>> >>,
                          <<N.l = cDOT /\ N.tr = cDOT, <<Broken(Off(pm, -1, 0), Off(pm, 1, -1))>> >>,
